@@ -23,7 +23,8 @@ impl Mutex<u32> {
             *final(w) == (World { height: *final(g) as int, height_read: *g as int, ..*old(w) }),
     { unimplemented!() }
 }
-pub struct GetinfoResponse { pub blockheight: u32 }
+// the fields of cln-rpc 0.1.9 a height poll could look at (the rest of the real struct is not mirrored)
+pub struct GetinfoResponse { pub blockheight: u32, pub warning_bitcoind_sync: Option<String>, pub warning_lightningd_sync: Option<String>, pub num_peers: u32, pub network: String, pub version: String }
 pub struct RpcError { pub _p: u8 }
 impl ::std::convert::From<RpcError> for AnyErr { #[verifier::external_body] fn from(e: RpcError) -> AnyErr { unimplemented!() } }
 impl vstd::std_specs::convert::FromSpecImpl<RpcError> for AnyErr {
